@@ -7,6 +7,6 @@ CONSTANTS
   ValSet2 = {0, 1}
   Elem <- ElemDef
   Elem2 <- Elem2Def
-INVARIANTS FoldRefines FoldPrefix PermInvariant NullTransparent Emit1
+INVARIANTS FoldRefines FoldPrefix PermInvariant NullTransparent FoldPrimitives Emit1
 PROPERTY Terminates
 CHECK_DEADLOCK FALSE
